@@ -3,19 +3,33 @@ import Bng.Proof.TeardownMonitor
   C16 (pppoe.SessionTeardown) — the monitor that judges the real code's observations, against the model.
 
   `per_session_clauses_silent_on_model`: for EVERY history of creations, terminations by every path, repeated and
-  interleaved (held) TerminateSession calls and failed re-authentications, the per-session clauses of the monitor
-  (double-stop, double-cleanup, double-padt, residue ×2, missing-stop, stop-unstarted, stop-before-end) never speak on
-  the model's own observations; the only verdict is the recorded finding KF-pppoe-no-acct-start.  So a verdict of one of
-  those clauses on the implementation is a departure from the model, not an artefact of the monitor.
+  interleaved (held) TerminateSession calls, failed re-authentications and an eBPF-map callback that is made to fail
+  (`fault ebpf on|off|once`), the per-session clauses of the monitor (double-stop, double-cleanup, double-padt,
+  residue ×2, missing-stop, stop-unstarted, stop-before-end, ebpf-residue) never speak on the model's own observations;
+  the only verdicts are the recorded findings KF-pppoe-no-acct-start and KF-pppoe-teardown-ebpf-noretry, and the latter
+  needs a failing callback (`ebpf_finding_needs_a_failing_callback`).  So a verdict of one of those clauses on the
+  implementation is a departure from the model, not an artefact of the monitor.
   (The `not-terminated` clauses are validated by the runs only.)
 -/
 namespace Bng.Spec.C16TeardownMon
 open Bng Bng.Teardown Bng.TeardownMon Bng.Proof.TeardownMonitor
 
+/-- On every history of the model — terminations by every path, repeated, two at once, with the eBPF-map callback
+    failing at any point — the per-session clauses of the monitor raise nothing but the two recorded findings. -/
 theorem per_session_clauses_silent_on_model (radius : Bool) (ops : List Op) :
-    ∀ v ∈ runPer (init radius) { radius := radius } ops, v.2.1 = "KF-pppoe-no-acct-start" :=
+    ∀ v ∈ runPer (init radius) { radius := radius } ops,
+      v.2.1 = "KF-pppoe-no-acct-start" ∨ v.2.1 = "KF-pppoe-teardown-ebpf-noretry" :=
   runPer_quiet ops (Bng.Spec.C16Teardown.inv_init radius)
-    (by intro k; simp [init, Bng.Spec.C16Teardown.cl, count, AMap.lookup]) (Rel_init radius)
+    (by intro k; simp [init, Bng.Spec.C16Teardown.cl, count]) (Rel_init radius)
+
+/-- On histories in which the eBPF-map callback is never made to fail the only verdict is KF-pppoe-no-acct-start:
+    the finding KF-pppoe-teardown-ebpf-noretry is never attributed without a failing callback. -/
+theorem ebpf_finding_needs_a_failing_callback (radius : Bool) (ops : List Op)
+    (hops : ∀ op ∈ ops, ∀ m, op ≠ Op.fault m) :
+    ∀ v ∈ runPer (init radius) { radius := radius } ops, v.2.1 = "KF-pppoe-no-acct-start" :=
+  runPer_quiet_nofail ops (Bng.Spec.C16Teardown.inv_init radius)
+    (by intro k; simp [init, Bng.Spec.C16Teardown.cl, count]) (Rel_init radius)
+    ⟨rfl, by intro n; simp [init, count]⟩ hops
 
 /-- what the observation shows for a counter is the model's counter -/
 theorem observed_count_is_model_count (m : AMap Nat Nat) (n : Nat) : getCount (countsOf m) n = count m n :=
@@ -27,5 +41,19 @@ example : (runPer (init true) { radius := true }
     [.mk 1 1 true true, .tpark 0 1, .term 1, .padt 1 1, .tresume 0, .term 1, .termAll]).map (·.1)
       = ["stop-without-start"] := by decide
 example : runPer (init false) {} [.mk 1 1 true true, .mk 2 2 false false, .authFail 1, .termAll, .term 1] = [] := by decide
+
+/-! non-vacuity with the fault: the failed removal is reported at every later step, as the recorded finding and as
+    nothing else; the session whose removal worked is silent -/
+example : (runPer (init false) {}
+    [.mk 1 1 true true, .mk 2 2 true true, .fault .once, .term 1, .termAll, .padt 1 1]).map (fun v => (v.1, v.2.1))
+      = [("ebpf-residue", "KF-pppoe-teardown-ebpf-noretry"), ("ebpf-residue", "KF-pppoe-teardown-ebpf-noretry"),
+         ("ebpf-residue", "KF-pppoe-teardown-ebpf-noretry")] := by decide
+/-- the monitor is not blind: what the seeded change C16h does (the cleanup stops when the callback fails: address and
+    table entry stay, no Stop) is judged `residue` ×2 and `missing-stop` with clause none -/
+example : ((perSession true { name := 1, mac := 1, authed := true, hasIp := true }
+      { stops := [], ebpf := [], efail := [(1, 1)], fp := [1], padt := [], held := [1], live := [1], parked := false }).map
+        (fun v => (v.1, v.2.1)))
+      = [("residue", "none"), ("residue", "none"), ("missing-stop", "none"),
+         ("ebpf-residue", "KF-pppoe-teardown-ebpf-noretry")] := by decide
 
 end Bng.Spec.C16TeardownMon
